@@ -222,16 +222,16 @@ def handshake(sc, rng, c, pw, kind="full", minor=None, split=None, ws=False):
     if not pw:
         steps = [v] + ([] if minor < 7 else [b"\x01"]) + ([] if minor == 889 else [bytes([rng.choice([0, 1, 1, 7])])])
         if split:
-            for s in steps:
-                sc.op("send %d %s%s" % (c, hx(s), cutstr(rnd_cuts(rng, len(s)))), hs)
+            for k, s in enumerate(steps):
+                sc.op("send %d %s%s" % (c, hx(s), cutstr(rnd_cuts(rng, len(s)))), dict(hs, last=(k == len(steps) - 1)))
         else:
             d = b"".join(steps)
-            sc.op("send %d %s%s" % (c, hx(d), cutstr(rnd_cuts(rng, len(d)))), hs)
+            sc.op("send %d %s%s" % (c, hx(d), cutstr(rnd_cuts(rng, len(d)))), dict(hs, last=True))
     else:
         d = v + (b"" if minor < 7 else b"\x02")
         sc.op("send %d %s%s" % (c, hx(d), cutstr(rnd_cuts(rng, len(d)))), hs)
         sc.op("auth %d %s%s" % (c, kind, cutstr(rnd_cuts(rng, 16))), {"auth": c, "kind": kind})
-        sc.op("send %d %s" % (c, hx(bytes([rng.choice([0, 1])]))), hs)
+        sc.op("send %d %s" % (c, hx(bytes([rng.choice([0, 1])]))), dict(hs, last=True))
 
 
 def cutstr(cuts):
@@ -502,7 +502,7 @@ def gen_ext(rng):
         op_provide(sc, c, f, rng)
         sc.send(c, [m_key(1, 0x50524F56)], rnd_cuts(rng, 8))
         # the other actions of the extension carry no clipboard text
-        kind = rng.choice(["caps", "request", "peek", "notify"])
+        kind = ["caps", "request", "peek", "notify"][k % 4]       # every action in every run
         fl = {"caps": (1 << 24) | 1 | rng.choice([0, 0x1E000000]), "request": (1 << 25) | 1, "peek": 1 << 26, "notify": (1 << 27) | 1}[kind]
         body = be32(fl) + (be32(rng.getrandbits(20)) if kind == "caps" else b"")
         data = bytes([6, 0, 0, 0]) + be32((-len(body)) & 0xFFFFFFFF) + body
@@ -742,6 +742,13 @@ def oracle(lines, anns, impl):
             for j, v in pre.items():
                 if j != actor and cur.get(j) != v:
                     return where + "status of bystander c%d changed %r -> %r" % (j, v, cur.get(j))
+        if "hs" in ann and fin.startswith("="):
+            # well-formed handshake bytes of a client that was connected: it must still be connected
+            v = cur.get(ann["hs"])
+            if pre.get(ann["hs"], ["", ""])[1:2] == ["open"] and (not v or v[1:2] != ["open"]):
+                return where + "connection closed during a well-formed handshake"
+            if ann.get("last") and (not v or v[0] != "normal"):
+                return where + "well-formed handshake did not reach RFB_NORMAL (state %r)" % (v,)
         if "viewonly" in ann:
             vo[ann["viewonly"][0]] = bool(ann["viewonly"][1])
         if "auth" in ann and ann["kind"] == "view":
@@ -943,6 +950,10 @@ def run(ctx):
             sc.lines, sc.ann = rec["script"], rec.get("ann") or [None] * len(rec["script"])
             sc.finding = rec.get("finding")
             scripts.append(sc)
+        for _ in range(3 if not thorough else 40):
+            scripts.append(gen_ext(rng))
+            scripts.append(gen_chat(rng))
+            scripts.append(gen_login(rng))
         segm = seg_messages(rng, 40, 30)
         for which in segm:
             n = sum(len(m[0]) for m in which[1])
@@ -964,10 +975,6 @@ def run(ctx):
         scripts.append(gen_limit(rng, [LIMIT, LIMIT + 1, 0x7FFFFFFF, 0x80000000, 0xFFFFFFFF, 0xFFF00000 + 5], ext=False))
         scripts.append(gen_limit(rng, [LIMIT, 5, 0x7FFFFFFF], ext=True))
         scripts.append(gen_limit(rng, [LIMIT, 70000, LIMIT + 1], ws=True))
-        for _ in range(3 if not thorough else 40):
-            scripts.append(gen_ext(rng))
-            scripts.append(gen_chat(rng))
-            scripts.append(gen_login(rng))
         if thorough:
             for _ in range(6):
                 scripts.append(gen_limit(rng, [LIMIT - 1, LIMIT, LIMIT + 1, rng.randrange(2, LIMIT)]))
@@ -982,16 +989,33 @@ def run(ctx):
     fails, samples, seen = [], [], set()
     dist = {"family": {}, "msgs": {}, "cuts": {}, "malformed_or_handshake_sends": 0, "callbacks": 0, "closed": 0}
 
+    # A hung or blocked server is a counterexample, reported in bounded time: the harness has its own
+    # watchdog (virtual I/O-call budget, no-progress guard, alarm() per op -> exit 3 with a `hang:` line);
+    # the per-script limit here is only the outer net (Ctx.run_lines confirms an expiry by one retry).
+    # After the first crash/hang the remaining scripts are skipped: one concrete input is enough.
+    stop = {"flag": False}
+    limit = 400 if not thorough else 900
+
     def one(sc):
-        return common.compare_streams(ctx, sc.text(), h, d, "input." + sc.family, timeout=900)
+        if stop["flag"]:
+            return None
+        r = common.compare_streams(ctx, sc.text(), h, d, "input." + sc.family, timeout=limit)
+        if r[2] and r[2]["kind"] == "crash":
+            stop["flag"] = True
+        return r
 
     results = common.pmap(one, scripts)
     evals = 0
-    for sc, (impl, model, f) in zip(scripts, results):
+    for sc, res in zip(scripts, results):
+        if res is None:
+            continue                # skipped after a crash/hang elsewhere
+        impl, model, f = res
         evals += 1
         fid = getattr(sc, "finding", None)
         if f:
             f = dict(f, ann=sc.ann, family=sc.family)
+            if f["kind"] == "crash" and any(l.startswith("hang:") for l in impl[-3:]):
+                f["what"] = "input.%s: HANG - %s" % (sc.family, [l for l in impl if l.startswith("hang:")][-1])
             f["script"] = [l[:400] for l in sc.lines][:400]
             if fid:
                 f["finding"] = fid
@@ -1007,8 +1031,13 @@ def run(ctx):
         classify(sc, impl, dist, seen)
         if len(samples) < 5 and sc.family in ("mix", "gate", "defer", "defer-scaled", "seg-ws", "login") and len(sc.lines) < 40:
             samples.append({"script": [l[:200] for l in sc.lines], "impl": impl[:80]})
-        if len(fails) >= 6:
+        # keep going until a CONCRETE counterexample is found (model/code disagreements alone must not
+        # stop the search for one); cap the number of disagreement records kept
+        if sum(1 for x in fails if x["kind"] in ("oracle", "crash")) >= 3:
             break
+        nex = [x for x in fails if x["kind"] not in ("oracle", "crash")]
+        if len(nex) > 5:
+            fails = [x for x in fails if x["kind"] in ("oracle", "crash")] + nex[:5]
     return {
         "evaluations": evals, "distinct_nontrivial": len(seen),
         "rule": "one evaluation = one script (session) run on the real server and on the model; non-trivial = distinct script in which the real server invoked at least one input callback (or an exhaustive ScaleX/ScaleY sweep over x=0..65535 for 6 dimension pairs)",
